@@ -1,6 +1,7 @@
 import EpgVerif.Props.C11
 import EpgVerif.Tie.SeqSites
 import EpgVerif.Props.C11Run
+import EpgVerif.Props.C11Bind
 open EpgVerif.Props.C11
 #print axioms expression_derive_exact
 #print axioms subst_eval
@@ -11,3 +12,7 @@ open EpgVerif.Props.C11
 #print axioms sequence_jacobian_exact
 #print axioms virtT
 #print axioms virtE
+#print axioms EpgVerif.Props.C11.lookupKw_perm
+#print axioms EpgVerif.Props.C11.bindPos_perm
+#print axioms EpgVerif.Props.C11.bindPos_full
+#print axioms EpgVerif.Props.C11.bindPos_prefix
